@@ -313,7 +313,7 @@ func main() {
 		if n < 3*prod {
 			n = 3 * prod
 		}
-		mode := s % 4
+		mode := s % 5
 		fc := distsys.MakeRoundRobinFairnessCounter()
 		switch mode {
 		case 0: // fixed, fresh counter
@@ -359,6 +359,45 @@ func main() {
 			evals += got
 			if w != nil {
 				report(w)
+			}
+		case 4: // a structure change (bound grows/shrinks, id changes, depth changes) on the SAME label, then the new
+			// structure stays fixed: from its first attempt on it must obey the exactly-once law again (the statement:
+			// "whatever ... changes of bounds"), e.g. `with x \in S` retried while S grows must reach the new elements
+			modeCount["fixed-after-structure-change"]++
+			pre := 1 + rng.Intn(2*prod)
+			_, w := checkFixed(fc, label, ps, pre)
+			evals += pre
+			if w != nil && !strings.Contains(w.Problem, "window") {
+				report(w)
+				break
+			}
+			ps2 := append([]point{}, ps...)
+			i := rng.Intn(len(ps2))
+			switch rng.Intn(5) {
+			case 0, 1:
+				ps2[i].Bound += uint(1 + rng.Intn(3)) // grows
+			case 2:
+				if ps2[i].Bound > 1 {
+					ps2[i].Bound = 1 + uint(rng.Intn(int(ps2[i].Bound-1))) // shrinks
+				} else {
+					ps2[i].Bound = 3
+				}
+			case 3:
+				ps2[i].ID += ".other"
+			case 4:
+				ps2 = append(ps2, point{ID: fmt.Sprintf("%s.extra", label), Bound: uint(2 + rng.Intn(3))})
+			}
+			if product(ps2) > 4000 {
+				break // too large to be worth it; never shorten: a structure that loses its deepest choice point is the
+				// prefix-stable case (the stale deeper digit keeps counting), for which only leaf coverage is demanded
+			}
+			n2 := 3*product(ps2) + 5
+			got, w2 := checkFixed(fc, label, ps2, n2)
+			evals += got
+			if w2 != nil {
+				w2.Mode = "fixed-after-structure-change"
+				w2.Problem = fmt.Sprintf("after %d attempts with %v the structure became %v: %s", pre, ps, ps2, w2.Problem)
+				report(w2)
 			}
 		case 3:
 			modeCount["wild"]++
